@@ -13,12 +13,11 @@ cd $W/repo
 git checkout -q --detach $(git -C /repo rev-parse HEAD); git checkout -- .; git clean -fdq
 BASE=$(git rev-parse --short HEAD)
 install_demo() {
-  if ls $SRC/demo$N/*.diff >/dev/null 2>&1; then
-    # the demo ships as a diff (new file + mod line in a binary crate): apply only the diff
-    for d in $SRC/demo$N/*.diff; do git apply "$d" || echo "demo diff $d does not apply"; done
-  else
-    ( cd $SRC/demo$N && find . -type f | while read f; do mkdir -p "$W/repo/$(dirname $f)"; cp "$f" "$W/repo/$f"; done )
-  fi
+  # diffs first (new test modules, `mod` lines in binary crates), then the plain files that are
+  # not in the tree yet; python scripts stay where they are and are run from there
+  for d in $(ls $SRC/demo$N/*.diff 2>/dev/null); do git apply "$d" 2>/dev/null || echo "demo diff $d does not apply"; done
+  ( cd $SRC/demo$N && find . -type f ! -name '*.diff' ! -name '*.py' | while read f; do
+      if [ ! -e "$W/repo/$f" ]; then mkdir -p "$W/repo/$(dirname $f)"; cp "$f" "$W/repo/$f"; fi; done )
 }
 # which test targets does the demo add?
 DEMO_ARGS=""
@@ -37,7 +36,7 @@ run_demo() { # returns 0 if all demo targets pass
   local ok=0
   for py in $(cd $SRC/demo$N && find . -name '*.py' -type f); do
     cargo build --offline -p harper-ls > $W/demo-build.log 2>&1
-    ( cd $W/repo && HARPER_LS=$W/target/debug/harper-ls PATH=$W/target/debug:$PATH python3 $SRC/demo$N/$py > $W/demo.log 2>&1 ) || ok=1
+    ( cd $W/repo && HARPER_LS=$W/target/debug/harper-ls PATH=$W/target/debug:$PATH python3 $SRC/demo$N/$py $W/target/debug/harper-ls > $W/demo.log 2>&1 ) || ok=1
   done
   IFS='|' read -ra A <<< "$DEMO_ARGS"
   for a in "${A[@]}"; do [ -z "$a" ] && continue
